@@ -123,7 +123,7 @@ def structural_faults(root: I.El, spec: G.ModelSpec) -> list[tuple]:
         out.append(("rens", i))
         out.append(("undeclared-prefix", i))
         out.append(("child-in-simple", i))
-        for xt in ("unknown", "unprefixed-unknown", "undeclared-prefix", "xs:int", "empty"):
+        for xt in ("unknown", "unprefixed-unknown", "undeclared-prefix", "xs:int", "empty", "xs:hexBinary", "xs:base64Binary", "xs:QName", "xs:date", "xs:duration", "xs:boolean", "xs:NOTATION"):
             out.append(("xsi-type", i, xt))
         for nv in ("maybe", "", "1", "true", "false"):
             out.append(("xsi-nil", i, nv))
@@ -179,8 +179,8 @@ def apply_fault(root: I.El, f: tuple):
         e.kids.append(I.El("zz-child", kids=["x"]))
     elif kind == "xsi-type":
         e.nsdecls.setdefault("xsi", XSI)
-        val = {"unknown": "xsi:NoSuchType", "unprefixed-unknown": "NoSuchType", "undeclared-prefix": "nodecl:T", "xs:int": "xs:int", "empty": ""}[f[2]]
-        if f[2] == "xs:int":
+        val = {"unknown": "xsi:NoSuchType", "unprefixed-unknown": "NoSuchType", "undeclared-prefix": "nodecl:T", "empty": ""}.get(f[2], f[2])
+        if f[2].startswith("xs:"):
             e.nsdecls.setdefault("xs", I.XS)
         e.attrs = [a for a in e.attrs if a[0] != "xsi:type"] + [("xsi:type", val)]
     elif kind == "xsi-nil":
@@ -273,6 +273,26 @@ def h_bytes(ch: Chooser, vec: list, maxf: int, lo: int, hi: int):
         return dict(ok=True, case=case, obs=what, nontrivial=h(bad_data), counters={"fault:" + what: 1})
     finally:
         model.release()
+
+
+# every codec name python knows that an XML declaration could carry, plus misspellings: the document itself stays ASCII
+ENCODINGS = ["UTF-8", "utf-8", "TF-8", "", "utf_8", "UTF-16", "utf-16-le", "UTF-32", "ascii", "US-ASCII", "latin-1", "iso-8859-1", "ISO-8859-15", "cp1252", "windows-1252", "utf-7", "big5", "gbk",
+             "shift_jis", "euc-jp", "idna", "punycode", "rot13", "hex", "base64", "zlib", "unicode_escape", "raw_unicode_escape", "undefined", "mbcs", "oem", "utf-8-sig", "cp037", "x-unknown", "none"]
+
+
+@harness("c15.encodings")
+def h_encodings(ch: Chooser):
+    """A well-formed ASCII document under every declared encoding name: parsed, or refused with a documented error."""
+    from ..models import shared as M
+    enc = ENCODINGS[ch.choose(len(ENCODINGS), "encoding", free=True)]
+    quote = ch.pick(['"', "'"], "quote", free=True)
+    body = ch.pick([b"<Doc><item><n>1</n></item></Doc>", b"<Doc/>"], "body", free=True)
+    data = b"<?xml version=" + quote.encode() + b"1.0" + quote.encode() + b" encoding=" + quote.encode() + enc.encode("ascii") + quote.encode() + b"?>" + body
+    case = {"document": repr(data), "declared_encoding": enc}
+    bad = judge(data, M.Doc, XmlContext(), case, f"declared-encoding/{enc or 'empty'}")
+    if bad:
+        return bad
+    return dict(ok=True, case=case, obs="encoding", nontrivial=h(data), counters={"fault:declared-encoding": 1})
 
 
 @harness("c15.tiny")
@@ -396,13 +416,14 @@ def run(tier: str, seed: int) -> int:
         for lo in range(0, 400, 50):
             tasks.append(("c15.bytes", dict(vec=v, maxf=maxf, lo=lo, hi=lo + 50), None, ()))
     tasks.append(("c15.tiny", {}, None, ()))
+    tasks.append(("c15.encodings", {}, None, ()))
     stats = parallel(tasks, explore_task, chunk=4)
     confirm_violations(stats)
     return finish(
         PROP, tier, seed, "fault_enumeration", stats, t0,
         rule=(f"structural faults: {len(vecs)} G-model models x (default instance or one value deviation) x every single structural fault (delete / duplicate / retag / re-namespace / "
-              "undeclared prefix / swap of every element, child inside every element, 5 bad xsi:type and 5 xsi:nil values on every element, delete / corrupt every attribute and text, "
-              f"wrong root, wrapped root); byte faults: {len(bvecs)} documents x truncation at every offset, deletion of every byte, 6 substitutions at every offset; all byte strings of "
+              "undeclared prefix / swap of every element, child inside every element, 12 foreign xsi:type values (unknown, undeclared, empty, 8 standard datatypes incl. the binary ones) and 5 xsi:nil values on every element, delete / corrupt every attribute and text, "
+              f"wrong root, wrapped root); byte faults: {len(bvecs)} documents x truncation at every offset, deletion of every byte, 6 substitutions at every offset; a well-formed ASCII document under {len(ENCODINGS)} declared encoding names; all byte strings of "
               "length <= 2 over an 8-byte alphabet; JSON/dict: 5 document-shape faults + 8 faults per key, through DictDecoder, JsonParser and a truncated JSON text. Both handlers. "
               "Distinct non-trivial = distinct faulty document."),
         assumptions=[f"bounded time is a {WATCHDOG_S}s watchdog per call, not a proof of termination",
